@@ -26,7 +26,7 @@ MON = {
     "C06": ["InitGetsSortedPartyIds", "DuplicatePartyRefused", "OnMsgAttributedToPartyOfSender", "P2PGoesToTheSessionReplica",
             "BroadcastGoesToTheParticipants"],
     "C11": ["CancelReturnsError", "FailureReturnsError", "PreconditionErrorReturned", "NoPanic", "NeverWedged"],
-    "C12": ["NoPanic", "ConcurrentSameTopicRefused", "AdmittedAndSucceeds", "AdmittedWhenNoSessionOnTopic", "LaterCallSucceeds",
+    "C12": ["NoResidueAtReturn", "NoPanic", "ConcurrentSameTopicRefused", "AdmittedAndSucceeds", "AdmittedWhenNoSessionOnTopic", "LaterCallSucceeds",
             "LateTrafficNoEffect", "ForeignNeverReachesInstance", "NeverWedged"],
 }
 
@@ -247,8 +247,28 @@ def run(pid):
     cap = int(os.environ.get("VERIF_ORCH_CAP", cap))
     total_hist = len(maximal)
     if len(maximal) > cap:
+        # stratified: first a few histories of every class (kinds of calls with their plan deviations x kinds of operations), then
+        # the rest at random -- a rare class (one plan at one stage) must not depend on the luck of the draw
         rng.shuffle(maximal)
-        maximal = maximal[:cap]
+        def cls(k):
+            parts = set()
+            for e in keyed[k]["path"]:
+                if e.get("e") == "call":
+                    pl = e.get("plan", {})
+                    dev = [a + "=" + str(b) for a, b in sorted(pl.items()) if b not in ("ok", "none")]
+                    parts.add(str(e.get("kind")) + "[" + ",".join(dev) + "]")
+                else:
+                    parts.add(str(e.get("e")) + ":" + str(e.get("label", "")))
+            return "+".join(sorted(parts))
+        per, first, rest = {}, [], []
+        for k in maximal:
+            c = cls(k)
+            if per.get(c, 0) < 2:
+                per[c] = per.get(c, 0) + 1
+                first.append(k)
+            else:
+                rest.append(k)
+        maximal = (first + rest)[:max(cap, len(first))] if len(first) <= 2 * cap else first[:2 * cap]
     for k in maximal:
         o = keyed[k]
         ops = quiesce_and_probe(norm_ops(o["path"]), o["cs"], 4)
